@@ -57,6 +57,41 @@ def swap_roles(sw):
     return Gp, e0s, e1s, u0, v0
 
 
+def _partners_of(sc, expr):
+    """(A, name) when expr is a collection of `self.get_other_vertex(A, e)` over some edges (comprehension, set()/list() of
+    one, or a local filled by an append loop); else None"""
+    name = expr.id if isinstance(expr, ast.Name) else None
+    e = sc.resolve(expr)
+    while isinstance(e, ast.Call) and txt(e.func) in ("set", "list", "tuple", "frozenset") and len(e.args) == 1:
+        e = e.args[0]
+    if isinstance(e, ast.Name):
+        comp = rules.as_comprehension(sc, e.id)
+        name = name or e.id
+        if comp is not None:
+            e = comp
+    if isinstance(e, (ast.ListComp, ast.SetComp, ast.GeneratorExp)) and isinstance(e.elt, ast.Call) and txt(e.elt.func) == "self.get_other_vertex" and e.elt.args:
+        return txt(e.elt.args[0]), name
+    return None
+
+
+def _other_vertex_names(fn, sc, A, pname):
+    """locals that stand for `the other end point of one of A's corner edges`"""
+    out = set()
+    for nm, sites in sc.assigns.items():
+        if any(isinstance(s_.value, ast.Call) and txt(s_.value.func) == "self.get_other_vertex" and s_.value.args and txt(s_.value.args[0]) == A for s_ in sites):
+            out.add(nm)
+    if pname:
+        for n in astx.walk_fn(fn.node):
+            if isinstance(n, ast.For):
+                if isinstance(n.iter, ast.Name) and n.iter.id == pname and isinstance(n.target, ast.Name):
+                    out.add(n.target.id)
+                if isinstance(n.iter, ast.Call) and txt(n.iter.func) == "zip" and isinstance(n.target, ast.Tuple) and len(n.target.elts) == len(n.iter.args):
+                    for te, a in zip(n.target.elts, n.iter.args):
+                        if isinstance(a, ast.Name) and a.id == pname and isinstance(te, ast.Name):
+                            out.add(te.id)
+    return sorted(out)
+
+
 def run(ctx):
     prog = ctx.prog
     ctx.trust("networkx Graph.copy copies nodes, edges and their attribute dicts; add_edge/remove_edge; G.edges(u) lists all edges at u",
@@ -319,6 +354,14 @@ def run(ctx):
                         eqs.append(frozenset((txt(d.left), txt(d.comparators[0]))))
                 elif isinstance(d, ast.Compare) and len(d.ops) == 1 and isinstance(d.ops[0], (ast.Is, ast.IsNot)) and isinstance(d.left, ast.Name) and isinstance(d.comparators[0], ast.Name):
                     identity.append((frozenset((txt(d.left), txt(d.comparators[0]))), d))
+                elif isinstance(d, ast.Compare) and len(d.ops) == 1 and isinstance(d.ops[0], (ast.In, ast.NotIn)) and isinstance(d.left, ast.Name) \
+                        and _partners_of(usc, d.comparators[0]) is not None:
+                    # `x in partners`, partners = the other end points of A's corner edges: x == other(A, e) for some e, i.e. the
+                    # equality test of x with every local that stands for such an other end point
+                    A_, pname_ = _partners_of(usc, d.comparators[0])
+                    if dp == isinstance(d.ops[0], ast.In):
+                        for nm_ in _other_vertex_names(su, usc, A_, pname_):
+                            eqs.append(frozenset((txt(d.left), nm_)))
                 elif isinstance(d, ast.Call) and isinstance(d.func, ast.Attribute) and d.func.attr == "has_edge":
                     if not dp:
                         o6.violated(su, r_, f"the pairing is rejected when the prospective edge `{t}` is ABSENT: swaps that would duplicate an existing edge go through, "
